@@ -1256,6 +1256,10 @@ class MindsDBParser(Parser):
         if hasattr(p, 'id'):
             query.alias = Identifier(parts=[p.id])
         if hasattr(p, 'column_list'):
+            if not isinstance(getattr(query, 'targets', None), list):
+                # (ROLLBACK) AS t (a), (SELECT .. UNION SELECT ..) AS t (a), (RETRAIN m) AS t (a)
+                raise ParsingException(
+                    f'Column aliases can not be applied to {type(query).__name__} in parentheses, a SELECT is expected')
             for i, col in enumerate(p.column_list):
                 if i >= len(query.targets):
                     break
